@@ -503,11 +503,33 @@ def _text_arg_type(a: str) -> str:
     return "unknown"
 
 
-@rule("L1", "RUN-INTERFACE: every RUN the tool can emit names a library procedure and passes the declared number and coarse types of arguments", ["C14", "C13", "C04", "C07"], floor=40, default_props=["C14", "C13", "C04"])
+@rule("L1", "RUN-INTERFACE: every RUN the tool can emit names a library procedure and passes the declared number and coarse types of arguments", ["C14", "C13", "C04", "C07", "C05", "C15"], floor=40, default_props=["C14", "C13", "C04"])
 def l1(ctx: Ctx):
     I = interp(ctx)
     L = b09lib(ctx)
     n_sites = 0
+    # the mirror image of `not-a-run`: a RUN printed through an *expression* object (BasicFunctionCall("RUN x", ...)) has the
+    # right text but never announces itself as a statement - calls hoisted out of its operands are attached to whatever
+    # statement came before (or to none: AttributeError)
+    py_ = pyfacts(ctx)
+    seen_fc = set()
+    for r_, v_ in sorted(rule_values(ctx).items()):
+        for x_, _ in walk(v_):
+            # (built by the parser: the call object that set_var builds inside elements.py is handed to a statement on purpose)
+            if isinstance(x_, Obj) and x_.cls == "BasicFunctionCall" and x_.file == PARSER_REL:
+                f_ = _fx(ctx, x_, 0, "_func")
+                for nm_ in (_names(f_) if f_ is not None else []):
+                    if re.match(r"(?i)\s*run\s+\w+", nm_) and (x_.line, nm_) not in seen_fc:
+                        seen_fc.add((x_.line, nm_))
+                        ctx.ob(
+                            f"{r_}->{nm_.split()[-1]}:run-as-expression",
+                            False,
+                            f"`{nm_}` is emitted through BasicFunctionCall (an expression) by the visitor of `{r_}`: the text is that of a RUN statement, but the object never calls visit_statement - a function in its operands is hoisted onto the previous statement (conditionally executed, or before the label), and onto nothing if there is none (AttributeError)",
+                            file=x_.file,
+                            line=x_.line,
+                            witness="10 REM STAR / 20 PRINT@INT(RND(0)*510),\"*\";",
+                            props=["C05", "C15", "C04"],
+                        )
     for s in sorted(run_sites(ctx), key=lambda d: (d["file"], d["line"], d["inv"])):
         inv = s["inv"]
         m = re.fullmatch(r"(?i)run\s+(\w+)", inv.strip())
@@ -516,7 +538,7 @@ def l1(ctx: Ctx):
             if inv == "?":
                 raise AnalysisError("L1", s["where"], "procedure name of an emitted RUN is not a constant")
             # BasicRunCall used for something that is not a RUN (e.g. a function name): interface of a statement
-            ctx.ob(key + ":not-a-run", False, f"`{inv}` is emitted through {s['cls']} (a statement that prints `<text>(args)`) but is not a RUN call", file=s["file"], line=s["line"], props=["C14", "C07"])
+            ctx.ob(key + ":not-a-run", False, f"`{inv}` is emitted through {s['cls']} (a statement that prints `<text>(args)`) but is not a RUN call (a statement inside an argument list also takes over the hoisting pass: calls of the operands after it are printed inside the list)", file=s["file"], line=s["line"], props=["C14", "C07", "C05"])
             continue
         name = m.group(1)
         n_sites += 1
